@@ -18,3 +18,10 @@ pub use strum::IntoEnumIterator as IterableEnum;
 extern crate alloc;
 
 pub type Result<T> = core::result::Result<T, error::Error>;
+
+/// Verification hooks: re-exports of internal components driven directly by the
+/// model-checking harness. Compiled only with `--cfg rustzx_verif`.
+#[cfg(rustzx_verif)]
+pub mod verif {
+    pub use crate::zx::tape::{Tap, TapeImpl, VerifTapState};
+}
